@@ -304,6 +304,65 @@ pub fn gen_scene(rng: &mut Rng) -> Scene {
         }
         Kind::Mesh => (0, 0, 0, vec![]),
     };
+    let mut prog = prog;
+    if kind == Kind::Image3 && rng.chance(0.3) {
+        // something just beyond the top of the grid (world z > 1): when the
+        // depth is not a multiple of the root tile, the top slab reaches into
+        // it and the columns below come out saturated - with or without a pool
+        use crate::gen_::prog::{Bin, PNode, Un};
+        let mut push = |n: PNode| {
+            prog.nodes.push(n);
+            (prog.nodes.len() - 1) as u32
+        };
+        let z = push(PNode::Var(2));
+        let above = if rng.chance(0.5) {
+            // a ceiling: negative for z > 1 + e
+            let c = push(PNode::Const(1.0 + rng.uniform(0.01, 0.2) as f32));
+            push(PNode::Bin(Bin::Sub, c, z))
+        } else {
+            // a ball hanging over part of the image
+            let (x, y) = (push(PNode::Var(0)), push(PNode::Var(1)));
+            let (cx, cy, cz) = (push(PNode::Const(rng.uniform(-0.6, 0.6) as f32)), push(PNode::Const(rng.uniform(-0.6, 0.6) as f32)), push(PNode::Const(1.0 + rng.uniform(0.35, 0.6) as f32)));
+            let (dx, dy, dz) = (push(PNode::Bin(Bin::Sub, x, cx)), push(PNode::Bin(Bin::Sub, y, cy)), push(PNode::Bin(Bin::Sub, z, cz)));
+            let (x2, y2, z2) = (push(PNode::Un(Un::Square, dx)), push(PNode::Un(Un::Square, dy)), push(PNode::Un(Un::Square, dz)));
+            let s = push(PNode::Bin(Bin::Add, x2, y2));
+            let s = push(PNode::Bin(Bin::Add, s, z2));
+            let r = push(PNode::Un(Un::Sqrt, s));
+            let rad = push(PNode::Const(rng.uniform(0.25, 0.33) as f32));
+            push(PNode::Bin(Bin::Sub, r, rad))
+        };
+        let old = prog.outputs[0];
+        let root = push(PNode::Bin(Bin::Min, old, above));
+        prog.outputs = vec![root];
+    }
+    let (mut w, mut h, mut d, mut tiles) = (w, h, d, tiles);
+    if kind == Kind::Image3 && rng.chance(0.15) {
+        // a body that fills most of the view volume, and a ball far above
+        // the grid: over the whole view volume the union is decided (the
+        // body), but the top slab of a grid whose depth is just above a
+        // multiple of the root tile reaches up to the ball, which saturates
+        // the columns below it - with or without a pool
+        use crate::gen_::shape::B;
+        let mut b = B::new();
+        let (x, y, z) = (b.var(0), b.var(1), b.var(2));
+        let ball = |b: &mut B, c: [f32; 3], r: f32| {
+            let (dx, dy, dz) = (b.subc(x, c[0]), b.subc(y, c[1]), b.subc(z, c[2]));
+            let (x2, y2, z2) = (b.sq(dx), b.sq(dy), b.sq(dz));
+            let s = b.add(x2, y2);
+            let s = b.add(s, z2);
+            let q = b.sqrt(s);
+            b.subc(q, r)
+        };
+        let body = ball(&mut b, [0.0, 0.0, 0.0], rng.uniform(1.1, 1.4) as f32);
+        let far = ball(&mut b, [rng.uniform(-0.5, 0.5) as f32, rng.uniform(-0.5, 0.5) as f32, 1.0 + rng.uniform(0.9, 1.6) as f32], rng.uniform(0.2, 0.35) as f32);
+        let root = if rng.chance(0.5) { b.min(body, far) } else { b.min(far, body) };
+        prog = Prog { nodes: b.nodes, n_vars: 3, outputs: vec![root] };
+        tiles = rng.pick(&[vec![8usize], vec![8, 4], vec![16, 4], vec![16, 8, 4]]).clone();
+        let root_tile = tiles[0] as u32;
+        d = root_tile * (1 + rng.below(2) as u32) + 1 + rng.below(3) as u32;
+        w = d + rng.below(8) as u32;
+        h = d + rng.below(8) as u32;
+    }
     Scene { kind, prog, w, h, d, tiles, depth: 2 + rng.below(3) as u8, jit: rng.chance(0.5) }
 }
 
